@@ -283,10 +283,13 @@ def gen_hist(rnd, restart_set=False):
             ops.append({"op": "rollout_deploy", "id": ids.pop()})
         elif k < 0.82:
             ops.append(setop())
-        elif k < 0.92:
+        elif k < 0.90:
             ops.append({"op": "stop"})
-        else:
+        elif k < 0.95:
             ops.append({"op": "restart"})
+        else:
+            # every target of one side fails its probe (later: passes again): the split decision does not look at health
+            ops.append({"op": "health", "side": rnd.choice(["rollout", "rollout", "active"]), "healthy": rnd.random() < 0.3})
         if ops[-1]["op"] != "request" and rnd.random() < 0.7:
             ops.append(request())
     return {"kind": "hist", "stream": "hist", "init": init, "ops": ops}
@@ -300,6 +303,15 @@ def gen_cases(seed, tier):
     cases.append({"kind": "hist", "stream": "hist-restart-set", "init": 0,
                   "ops": [{"op": "restart"}, {"op": "set", "pct": "100", "allow": []},
                           {"op": "request", "lines": [(COOKIE + b"=x").hex()]}]})
+    # the split decision does not look at the health of either side: an included request whose rollout targets all fail their
+    # probes gets the proxy's 503, it is not handed to the active targets (and the other way round)
+    ck = lambda v: {"op": "request", "lines": [(COOKIE + b"=" + v).hex()]}
+    for side, pct, allow in (("rollout", "100", []), ("rollout", "0", [b"alice".hex()]), ("active", "100", []), ("active", "50", [b"bob".hex()])):
+        cases.append({"kind": "hist", "stream": "hist-health", "init": 1,
+                      "ops": [{"op": "rollout_deploy", "id": 2}, {"op": "set", "pct": pct, "allow": allow}, ck(b"alice"), {"op": "request", "lines": []},
+                              {"op": "health", "side": side, "healthy": False}, ck(b"alice"), ck(b"bob"), {"op": "request", "lines": []},
+                              {"op": "health", "side": side, "healthy": True}, ck(b"alice"), {"op": "request", "lines": []},
+                              {"op": "health", "side": side, "healthy": False}, {"op": "restart"}, ck(b"alice"), {"op": "request", "lines": []}]})
     nh, nrs = (80, 5) if tier == "quick" else (2000, 40)
     for _ in range(nh):
         cases.append(gen_hist(rnd))
@@ -333,8 +345,13 @@ def case_term(c, o):
             lines_lit(c["allow"]), list_lit([z_lit(int(p)) for p in c["pcts"]]),
             list_lit([lines_lit(r) for r in c["reqs"]]), list_lit(per))
     cmds, xs = [], []
+    v2 = any(op["op"] == "health" for op in c["ops"])
     for op, ob in zip(c["ops"], o["obs"]):
         k = op["op"]
+        if k == "health":
+            cmds.append("HHealth %s %s" % (bool_lit(op["side"] == "rollout"), bool_lit(op["healthy"])))
+            xs.append("XOk")
+            continue
         if k == "deploy":
             cmds.append("HDeploy %d" % op["id"])
         elif k == "rollout_deploy":
@@ -352,6 +369,9 @@ def case_term(c, o):
             xs.append("XServed %d" % s if s >= 0 else "XStatus %d" % (0 if s == -1 else -s))
         else:
             xs.append({"ok": "XOk", "norollout": "XErrNoRollout"}.get(ob["res"], "XErrOther"))
+    if v2:     # histories with health changes: corr/C10health.v (evaluated apart from the c10_case list)
+        cmds = [x if x.startswith("HHealth") else "HPlain (%s)" % x for x in cmds]
+        return "V2 (%d%%nat, %s, %s)" % (c["init"], list_lit(cmds), list_lit(xs))
     return "CaseHist %d %s %s" % (c["init"], list_lit(cmds), list_lit(xs))
 
 
@@ -373,7 +393,7 @@ def run(tier, seed):
     res = Result("C10", tier, seed)
     work = Work("C10")
     try:
-        ok, blog = coq_build(["props/C10.vo", "corr/C10corr.vo"])
+        ok, blog = coq_build(["props/C10.vo", "corr/C10corr.vo", "corr/C10health.vo"])
         proofs_ok, pa = proof_obligations(work, res, "C10.v", ok, blog)
         cases = gen_cases(seed, tier)
         write_jsonl(work.path("cases.jsonl"), [{k: v for k, v in c.items() if not k.startswith("_")} for c in cases])
@@ -387,8 +407,12 @@ def run(tier, seed):
         failing = []
         if harness_ok and ok:
             jobs, cur, size, start = [], [], 0, 0
+            v2_items = []
             for j in range(len(cases)):
                 t = case_term(cases[j], obs[j])
+                if t.startswith("V2 "):
+                    v2_items.append((j, t[3:]))
+                    t = "CaseHist 0 [] []"          # placeholder keeps the indices of the list aligned
                 cur.append(t)
                 size += len(t)
                 if size > 150000 or len(cur) >= 40:
@@ -409,6 +433,20 @@ def run(tier, seed):
                 for s, txt in ex.map(ev, jobs):
                     for (j, a, m) in parse_failures(txt):
                         failing.append((s + j, a, m))
+
+            if v2_items:
+                body = ("Definition xs : list (nat * list hcmd2 * list xobs) := [\n%s].\n"
+                        "Definition R := Eval vm_compute in map (fun x => let '(i, c, o) := x in (hist_agree2 i c o, hist_monitor2 i c o)) xs.\n"
+                        % ";\n".join(t for _, t in v2_items))
+                txt = coq_eval(work, "Health", "From KP Require Import model.Base model.Rollout corr.C10corr corr.C10health.\n"
+                                               "Local Open Scope N_scope.", body, "R")
+                pairs = re.findall(r"\((true|false), (true|false)\)", txt)
+                if len(pairs) != len(v2_items):
+                    raise RuntimeError("unexpected health verdicts: " + txt[:300])
+                for (j, _), (a, m) in zip(v2_items, pairs):
+                    if a != "true" or m != "true":
+                        failing.append((j, a == "true", m == "true"))
+            res.coverage["histories_with_health_changes"] = len(v2_items)
 
         # ---- coverage: what was generated and where the decisions landed
         streams, kinds, ops = {}, {}, {}
